@@ -494,6 +494,28 @@ def r25(ctx: Ctx) -> RuleReport:
                 '' if good else f'{dname}[{key!r}] is fed from args.{src}, but {opt} is stored in args.{dests[opt]}')
     # 3. guards in _process_in/_process_out
     guard_of = {info['guards']: info['key'] for info in spec['options'].values()}
+    # 3a. every documented operation is still called somewhere in the two functions (or what they call), and its result is used
+    from ..resolve import local_callees as _lc
+    called = {}
+    for fn in ('_process_in', '_process_out'):
+        f0 = ctx.repo.func('penman.__main__', fn)
+        for f1 in _lc(ctx, f0, depth=1):
+            pm1 = ctx.repo.parent_map(f1.node)
+            for call, ts in ctx.cg.calls_in(f1):
+                for t in ts:
+                    if t.kind == 'func' and t.func.fq in guard_of:
+                        called.setdefault(t.func.fq, []).append((f1, call, pm1.get(id(call))))
+    IN_PLACE = {'penman.layout:rearrange', 'penman.tree:Tree.reset_variables'}
+    for fq, okey in guard_of.items():
+        k = f'penman.__main__: the operation behind {okey} ({fq.split(":")[1]}) is applied'
+        if fq not in called:
+            rep.violation(k, ctx.repo.func('penman.__main__', '_process_in').loc(), f'no call of {fq.split(":")[1]} is left in _process_in / _process_out: the option is accepted and silently does nothing')
+            continue
+        f1, call, par = called[fq][0]
+        if fq not in IN_PLACE and isinstance(par, ast.Expr):
+            rep.violation(k, f1.loc(call), f'the result of `{norm(call)[:50]}` is thrown away: {fq.split(":")[1]} returns a new object, so the option has no effect')
+        else:
+            rep.ok(k, f1.loc(call))
     for fn in ('_process_in', '_process_out'):
         fi = ctx.repo.func('penman.__main__', fn)
         cfg = CFG(fi.node)
@@ -1066,3 +1088,158 @@ def r103(ctx: Ctx) -> RuleReport:
         rep.add(f'{mk.fq}: returns (sort function, keyword flags)', mk.loc(r), 'ok' if first_is_func else 'violation',
                 '' if first_is_func else f'returns ({norm(r.value.elts[0])}, {norm(r.value.elts[1])}): the caller unpacks (key, kwargs), so the dict is used as the sort key and the function as **kwargs')
     return rep
+
+
+# ---------------------------------------------------------------------------------------------
+@rule('R105', 'the small decision functions of the tool choose as documented: model selection, --indent decoding, triples versus tree output, per-file status accumulation')
+def r105(ctx: Ctx) -> RuleReport:
+    rep = RuleReport('R105', r105.title, floor=8)
+    M_ = 'penman.__main__'
+
+    def fx_of(fi, n):
+        return {(f.replace(' ', ''), pol) for f, pol in facts_ex(ctx, fi, n)}
+    # ---- (a) _get_model
+    gm = ctx.repo.func(M_, '_get_model')
+    if len(gm.positional) >= 3:
+        p_amr, p_noop, p_file = gm.positional[:3]
+        rets = [n for n in walk_local(gm.node) if isinstance(n, ast.Return) and isinstance(n.value, ast.Name)]
+        rv = rets[0].value.id if rets else None
+        binds = []
+        for n in walk_local(gm.node):
+            if isinstance(n, ast.ImportFrom) and any((a.asname or a.name) == rv for a in n.names):
+                binds.append((n, 'import:' + (n.module or '')))
+            elif isinstance(n, ast.Assign) and isinstance(n.targets[0], ast.Name) and n.targets[0].id == rv:
+                binds.append((n, 'expr:' + norm(n.value).replace(' ', '')))
+            elif isinstance(n, ast.Return) and not isinstance(n.value, ast.Name) and n.value is not None:
+                binds.append((n, 'expr:' + norm(n.value).replace(' ', '')))
+        want = {'amr': lambda k: k == 'import:penman.models.amr', 'noop': lambda k: k == 'import:penman.models.noop',
+                'file': lambda k: k.startswith('expr:Model(') and 'json.load' in k and p_file in k, 'default': lambda k: k == 'expr:Model()'}
+        seen = set()
+        for n, kind in binds:
+            fx = fx_of(gm, n)
+            case = None
+            if (p_amr, True) in fx:
+                case = 'amr'
+            elif (p_amr, False) in fx and (p_noop, True) in fx:
+                case = 'noop'
+            elif (p_amr, False) in fx and (p_noop, False) in fx and (p_file, True) in fx:
+                case = 'file'
+            elif (p_amr, False) in fx and (p_noop, False) in fx and (p_file, False) in fx:
+                case = 'default'
+            key = f'{gm.fq}: `{norm(n)[:50]}` is chosen in the documented case'
+            if case is None:
+                rep.violation(key, gm.loc(n), f'this model is chosen under {sorted(f for f, p in fx if p) or "no condition"} / not {sorted(f for f, p in fx if not p)}: that is none of the four documented cases '
+                              f'(--amr; --noop; --model FILE; none of them), so some option selects the wrong model')
+                continue
+            seen.add(case)
+            if want[case](kind):
+                rep.ok(key, gm.loc(n), case)
+            else:
+                rep.violation(key, gm.loc(n), f'in the case "{case}" the model is {kind.split(":", 1)[1][:40]}: --{case if case != "file" else "model FILE"} does not select the model it names')
+        for c_ in ('amr', 'noop', 'file', 'default'):
+            if c_ not in seen and binds:
+                rep.violation(f'{gm.fq}: the case "{c_}" has a model', gm.loc(), f'no binding of the returned model is reached exactly in the case "{c_}"')
+        main = ctx.repo.func(M_, 'main')
+        for call, ts in ctx.cg.calls_in(main):
+            if any(t.kind == 'func' and t.func is gm for t in ts) and len(call.args) >= 3:
+                got = [norm(a).split('.')[-1] for a in call.args[:3]]
+                okc = got[0] == 'amr' and got[1] == 'noop' and got[2] in ('model', 'model_file')
+                rep.add(f'{main.fq}: `{norm(call)[:60]}` hands (amr, noop, model file) over in that order', main.loc(call), 'ok' if okc else ('violation' if sorted(got) == sorted(['amr', 'noop', got[2]]) and set(got[:2]) == {'amr', 'noop'} else 'undecided'),
+                        '' if okc else f'the arguments are {got}: --amr selects the no-op model and --noop the AMR model')
+    # ---- (b) _indent
+    ind = ctx.repo.func(M_, '_indent')
+    p = ind.positional[0]
+    for n in walk_local(ind.node):
+        if isinstance(n, ast.Assign) and isinstance(n.targets[0], ast.Name) and isinstance(n.value, ast.Constant) and n.value.value is None:
+            fx = fx_of(ind, n)
+            words = [(f, pol) for f, pol in fx if '.lower()in(' in f or '.upper()in(' in f or '.casefold()in(' in f]
+            key = f'{ind.fq}: the words no / none / false (any case) select "no indentation"'
+            if not words:
+                rep.violation(key, ind.loc(n), f'`{norm(n)}` does not depend on the test for the words no / none / false')
+            else:
+                f, pol = words[0]
+                tup = f.split('in(', 1)[1].rstrip(')')
+                consts = {w.strip("'\"") for w in tup.split(',') if w.strip("'\"")}
+                lower = '.lower()' in f or '.casefold()' in f
+                if not pol:
+                    rep.violation(key, ind.loc(n), 'None is chosen when the value is NOT one of the words: every number is read as "no indentation" and "no" is handed to int()')
+                elif consts != {'no', 'none', 'false'} and {c.lower() for c in consts} == {'no', 'none', 'false'} and lower:
+                    rep.violation(key, ind.loc(n), f'the value is lower-cased but compared with {sorted(consts)}')
+                elif (lower and consts == {'no', 'none', 'false'}) or (not lower and consts == {'NO', 'NONE', 'FALSE'}):
+                    rep.ok(key, ind.loc(n))
+                elif {c.lower() for c in consts} == {'no', 'none', 'false'}:
+                    rep.violation(key, ind.loc(n), f'the case conversion and the spelling of the words do not fit ({f[:50]}): "no" is not recognised any more')
+                else:
+                    rep.undecided(key, ind.loc(n), f)
+        if isinstance(n, ast.Assign) and isinstance(n.value, ast.Call) and isinstance(n.value.func, ast.Name) and n.value.func.id in ('int', 'float') and n.value.args and norm(n.value.args[0]) == p:
+            rep.add(f'{ind.fq}: a number is read with int()', ind.loc(n), 'ok' if n.value.func.id == 'int' else 'violation',
+                    '' if n.value.func.id == 'int' else 'float() yields 2.0 for "2": the indentation width is a float and string repetition in the formatter fails')
+        if isinstance(n, ast.Raise):
+            fx = fx_of(ind, n)
+            low = [(f, pol) for f, pol in fx if '<-1' in f or '<=-2' in f or '>=-1' in f or '>-2' in f]
+            key = f'{ind.fq}: exactly the integers below -1 are rejected'
+            if not low:
+                other = [(f, pol) for f, pol in fx if any(op in f for op in ('<', '>'))]
+                rep.add(key, ind.loc(n), 'violation' if other or not fx else 'undecided', f'the rejection is under {sorted(fx)[:2]}: -1 (adaptive indentation) is rejected or -2 is accepted')
+            else:
+                f, pol = low[0]
+                good = (('<-1' in f or '<=-2' in f) and pol) or (('>=-1' in f or '>-2' in f) and not pol)
+                rep.add(key, ind.loc(n), 'ok' if good else 'violation', '' if good else f'the error is raised when `{f}` is {pol}: valid widths are rejected and invalid ones accepted')
+        if isinstance(n, ast.Assign) and isinstance(n.targets[0], ast.Name) and try_fold(n.value) == (True, -1):
+            fx = fx_of(ind, n)
+            good = (p, False) in fx or (f'{p}isNone', True) in fx
+            rep.add(f'{ind.fq}: without --indent the adaptive indentation (-1) is used', ind.loc(n), 'ok' if good else 'violation',
+                    '' if good else f'-1 is chosen under {sorted(fx)[:2]}: a given --indent value is ignored')
+    exits = [n for n in walk_local(ind.node) if isinstance(n, ast.Call) and norm(n.func) in ('sys.exit', 'parser.error', 'exit')]
+    hands = [n for n in walk_local(ind.node) if isinstance(n, ast.ExceptHandler)]
+    if hands and not exits and not any(isinstance(x, ast.Raise) for h in hands for x in ast.walk(h)):
+        rep.violation(f'{ind.fq}: an invalid value ends the run with a usage error', ind.loc(hands[0]), 'the handler for an invalid value does nothing: "--indent x" is passed on to the formatter as the string "x"')
+    # ---- (c) process: triples or tree
+    pr = ctx.repo.func(M_, 'process')
+    tparam = pr.positional[-1] if pr.positional else 'triples'
+    for call, ts in ctx.cg.calls_in(pr):
+        nm = norm(call.func).split('.')[-1]
+        if nm in ('format_triples', 'format'):
+            fx = fx_of(pr, call)
+            want_pol = nm == 'format_triples'
+            key = f'{pr.fq}: {nm} is used exactly when --triples is {"given" if want_pol else "absent"}'
+            if (tparam, want_pol) in fx:
+                rep.ok(key, pr.loc(call))
+            elif (tparam, not want_pol) in fx:
+                rep.violation(key, pr.loc(call), f'{nm} runs when `{tparam}` is {not want_pol}: --triples prints trees and the default prints triple conjunctions')
+            else:
+                rep.violation(key, pr.loc(call), f'{nm} does not depend on `{tparam}`: the --triples option is ignored')
+        if nm == '_process_out':
+            par = ctx.repo.parent_map(pr.node).get(id(call))
+            if not isinstance(par, (ast.Assign, ast.AnnAssign)):
+                rep.violation(f'{pr.fq}: the tree that is formatted is the result of _process_out', pr.loc(call), 'the result of _process_out is dropped: the unprocessed input tree is formatted')
+    if not any(norm(c.func).split('.')[-1] == '_process_out' for c, _ in ctx.cg.calls_in(pr)):
+        rep.violation(f'{pr.fq}: the tree that is formatted is the result of _process_out', pr.loc(), 'process no longer calls _process_out: the input tree is printed as it was parsed, every normalisation option is ignored')
+    # ---- (d) main: every call of process feeds the exit status, in both arms
+    main = ctx.repo.func(M_, 'main')
+    pmm = ctx.repo.parent_map(main.node)
+    pcalls = [c for c, ts in ctx.cg.calls_in(main) if any(t.kind == 'func' and t.func is pr for t in ts)]
+    exit_args = [c.args[0] for c in walk_local(main.node) if isinstance(c, ast.Call) and norm(c.func) == 'sys.exit' and c.args and isinstance(c.args[0], ast.Name)]
+    sv = exit_args[0].id if exit_args else None
+    for c in pcalls:
+        par = pmm.get(id(c))
+        okp = isinstance(par, (ast.Assign, ast.AugAssign)) and sv in {x.id for x in ast.walk(par.targets[0] if isinstance(par, ast.Assign) else par.target) if isinstance(x, ast.Name)}
+        in_loop = any(isinstance(a_, (ast.For, ast.While)) for a_ in _ancestors_of(pmm, c))
+        key = f'{main.fq}: the status of `process(...)` at line {c.lineno} reaches the exit status'
+        if not okp:
+            rep.violation(key, main.loc(c), 'the result of process is not stored in the status variable: --check finds errors but the tool exits 0')
+        elif in_loop and isinstance(par, ast.Assign):
+            rep.violation(key, main.loc(c), f'inside the loop over the files the status is assigned, not accumulated: only the last file decides the exit status')
+        else:
+            rep.ok(key, main.loc(c))
+    if sv and len(pcalls) < 2:
+        rep.add(f'{main.fq}: files and standard input are both processed', main.loc(), 'undecided' if pcalls else 'violation', f'{len(pcalls)} call(s) of process in main')
+    return rep
+
+
+def _ancestors_of(pm, n):
+    out = []
+    while id(n) in pm:
+        n = pm[id(n)]
+        out.append(n)
+    return out
